@@ -451,7 +451,7 @@ def c05_checks(case, replay_case, feats, value, data, world, rpaths, schema_ref,
         if kind == "typename-not-possible":
             holder = obj_at(value, path[:-1])
             if holder is not None:
-                names = oracles.wire_map(type(holder)).get("__typename", [])
+                names = oracles.wire_map(type(holder)).get(path[-1], [])  # "__typename" or its alias
                 if len(names) == 1 and type(holder).model_fields[names[0]].annotation is str:
                     owner = next((c for c in type(holder).__mro__ if names[0] in getattr(c, "__annotations__", {})), None)
                     frag_names = {"".join(p[:1].upper() + p[1:] for p in n.split("_")) for n in fragment_names}
